@@ -72,7 +72,7 @@ m = {
  'version': 1,
  'setup_cmd': 'make -C /verif -j16 all',
  'hooks': {'guard': 'JLS_VERIF', 'enable': '/verif/Makefile compiles /repo/src/*.c directly with -DJLS_VERIF (no CMake), one object directory per variant (asan, plain, swcrc, race)',
-           'baseline_off_cmd': 'cmake --build /repo/_build && ctest --test-dir /repo/_build -j1 --timeout 900', 'source_commits': hook_commits, 'add_only': True},
+           'baseline_off_cmd': 'cmake -G Ninja -S /repo -B /repo/_build && cmake --build /repo/_build && ctest --test-dir /repo/_build -j1 --timeout 900', 'source_commits': hook_commits, 'add_only': True},
  'engines': [
    {'name': 'jlssim-A', 'path': '/verif/sim', 'serves_properties': ['C01', 'C02', 'C09', 'C11', 'C12', 'C13', 'C15', 'C17', 'C10', 'C05', 'C14'], 'kind_free_text': 'deterministic simulator (SimFS, virtual clock, cooperative tasks, accounting allocator) running writer -> file -> reader programs, fault-free configuration'},
    {'name': 'jlssim-B', 'path': '/verif/sim', 'serves_properties': ['C03', 'C19', 'C17'], 'kind_free_text': 'crash-point enumeration over the SimFS write log (process stop after k writes / b bytes)'},
